@@ -27,7 +27,8 @@ import (
 //   step = (n0 n<k> n<payload kind>)  publish k messages
 //        | (n1 n<c>)   cut the current/next response after c more BODY bytes read by the client
 //        | (n2 n<c>)   sever the current/next transport connection after c more RAW bytes read by the client
-//        | (n3)        publish one message, wait until the client has it, then end the handler (clean end of the body)
+//        | (n3 n<settle>) publish one message, wait until the client has it, then end the handler (clean end of the body);
+//                      settle=1: then wait until Joe has registered the client's resubscription
 //        | (n4)        wait until the client has caught up
 // line written: input = (scenario (published ...) (attempt ...) flags), observed = n1
 //   published = (x<id> x<type> (x<data string> ...))            in publish order
@@ -224,6 +225,13 @@ func execE2E(in val.V) val.V {
 	default:
 		replayer, _ = sse.NewValidReplayer(time.Hour, auto)
 	}
+	var registrations atomic.Int64
+	sse.VerifSetHook(func(point string, _, _ any) {
+		if point == "loop.reg" {
+			registrations.Add(1)
+		}
+	})
+	defer sse.VerifSetHook(nil)
 	joe := &sse.Joe{Replayer: replayer}
 	srv := &sse.Server{Provider: joe}
 	handler := http.HandlerFunc(func(w http.ResponseWriter, r *http.Request) {
@@ -362,8 +370,15 @@ func execE2E(in val.V) val.V {
 				break
 			}
 			// end the handler of the connection that delivered it (it has started its stream)
+			regs := registrations.Load()
 			if c := run.cancelCur.Load(); c != nil {
 				(*c)()
+			}
+			if st.At(1).Truth() {
+				// let the client's resubscription be registered by Joe before anything else is published
+				for d := time.Now().Add(2 * time.Second); registrations.Load() == regs && time.Now().Before(d); {
+					time.Sleep(100 * time.Microsecond)
+				}
 			}
 		default:
 			caughtUp = waitRecv(owed(), 5*time.Second)
@@ -432,7 +447,7 @@ func genE2EScenario(r *rng.R, thorough bool) val.V {
 			steps = append(steps, val.L(val.N(2), val.Int(c)))
 			pub()
 		case x < 85:
-			steps = append(steps, val.L(val.N(3)))
+			steps = append(steps, val.L(val.N(3), val.Bool(r.Bool())))
 		default:
 			steps = append(steps, val.L(val.N(4)))
 		}
@@ -455,6 +470,17 @@ func genE2E(c *Ctx) {
 			val.L(val.Int(kind), val.L(val.L(val.N(1), val.N(7)), val.L(val.N(0), val.N(3), val.N(1)), val.L(val.N(4)), val.L(val.N(1), val.N(0)), val.L(val.N(0), val.N(2), val.N(3)))),
 			val.L(val.Int(kind), val.L(val.L(val.N(2), val.N(30)), val.L(val.N(0), val.N(2), val.N(4)), val.L(val.N(3)), val.L(val.N(0), val.N(2), val.N(120)), val.L(val.N(1), val.N(1500)), val.L(val.N(0), val.N(1), val.N(0)))),
 		)
+	}
+	// directed: a caught-up client reconnects (handler end) at every position of a small ring, incl. the wrap
+	for kind := 4; kind < 6; kind++ {
+		steps := []val.V{}
+		for i := 0; i < 14; i++ {
+			steps = append(steps, val.L(val.N(3), val.N(1)))
+			if i%5 == 4 {
+				steps = append(steps, val.L(val.N(1), val.N(0)), val.L(val.N(0), val.N(1), val.N(2)))
+			}
+		}
+		scen = append(scen, val.L(val.Int(kind), val.List(steps)))
 	}
 	for i := 0; i < n; i++ {
 		scen = append(scen, genE2EScenario(c.R, c.Thorough))
